@@ -326,3 +326,63 @@ Proof.
     intros [H|[]]. vm_compute in H. discriminate.
   - vm_compute. intro H. apply NoDup_cons_iff in H. destruct H as [H _]. apply H. left. reflexivity.
 Qed.
+
+(* ------------------------------------------------------------------ *)
+(* CBOR tag helper modules: once per identifier, in first-use order    *)
+(* ------------------------------------------------------------------ *)
+
+Lemma tags_loop_app : forall a b acc, collect_tags_loop acc (a ++ b) = collect_tags_loop (collect_tags_loop acc a) b.
+Proof.
+  induction a as [|t a IH]; intros b acc; [reflexivity|].
+  cbn [app collect_tags_loop]. destruct (memb t acc); apply IH.
+Qed.
+
+Lemma tags_loop_prefix : forall l acc, exists rest, collect_tags_loop acc l = acc ++ rest.
+Proof.
+  induction l as [|t l IH]; intro acc; cbn [collect_tags_loop]; [exists []; symmetry; apply app_nil_r|].
+  destruct (memb t acc); [apply IH|].
+  destruct (IH (acc ++ [t])) as [rest E]. exists (t :: rest). rewrite E, <- app_assoc. reflexivity.
+Qed.
+
+Lemma tags_loop_In : forall l acc x, In x (collect_tags_loop acc l) <-> In x acc \/ In x l.
+Proof.
+  induction l as [|t l IH]; intros acc x; cbn [collect_tags_loop].
+  - split; [left; assumption | intros [H|[]]; exact H].
+  - destruct (memb t acc) eqn:E; rewrite IH; cbn [In].
+    + apply memb_In in E. split; [intros [H|H]; auto | intros [H|[H|H]]; auto]. subst. left. exact E.
+    + rewrite in_app_iff. cbn [In]. tauto.
+Qed.
+
+Lemma NoDup_app_snoc : forall (l : list (list N)) x, NoDup l -> ~ In x l -> NoDup (l ++ [x]).
+Proof.
+  induction l as [|a l IH]; intros x H Hn; cbn [app]; [constructor; [intros []|constructor]|].
+  inversion H as [|y l' Ha Hl]; subst. constructor.
+  - intro Hin. apply in_app_or in Hin. destruct Hin as [Hin|[Hin|[]]]; [exact (Ha Hin)|]. apply Hn. left. symmetry. exact Hin.
+  - apply IH; [exact Hl|]. intro Hin. apply Hn. right. exact Hin.
+Qed.
+
+Lemma tags_loop_nodup : forall l acc, NoDup acc -> NoDup (collect_tags_loop acc l).
+Proof.
+  induction l as [|t l IH]; intros acc H; cbn [collect_tags_loop]; [exact H|].
+  destruct (memb t acc) eqn:E; apply IH; [exact H|].
+  apply NoDup_app_snoc. - exact H. - intro Hin. apply memb_In in Hin. congruence.
+Qed.
+
+(* each identifier exactly once *)
+Theorem tags_nodup : forall uses, NoDup (collect_tags uses).
+Proof. intro uses. apply tags_loop_nodup. constructor. Qed.
+
+Theorem tags_complete : forall uses x, In x (collect_tags uses) <-> In x uses.
+Proof. intros uses x. unfold collect_tags. rewrite tags_loop_In. cbn [In]. tauto. Qed.
+
+(* first-use order: what is emitted for a prefix of the uses is a prefix of what is emitted, and a tag not
+   used before comes next *)
+Theorem tags_first_use_order : forall pre t post, ~ In t pre ->
+  exists rest, collect_tags (pre ++ t :: post) = collect_tags pre ++ t :: rest.
+Proof.
+  intros pre t post H. unfold collect_tags. rewrite tags_loop_app. cbn [collect_tags_loop].
+  destruct (memb t (collect_tags_loop [] pre)) eqn:E.
+  - exfalso. apply H. apply memb_In in E. apply tags_loop_In in E. destruct E as [[]|E]. exact E.
+  - destruct (tags_loop_prefix post (collect_tags_loop [] pre ++ [t])) as [rest Er].
+    exists rest. rewrite Er, <- app_assoc. reflexivity.
+Qed.
